@@ -48,6 +48,9 @@ func main() {
 			for _, k := range e2e.C02ShapeKinds {
 				for _, m := range modes {
 					for _, w := range []bool{false, true} {
+						if w && e2e.C02ShapeKeepsPlzOut(k) {
+							continue
+						}
 						shapeOpts = append(shapeOpts, e2e.C02ShapeOpts{Kind: k, Cache: m, WipeAll: w, Steps: c.Scale(4, 7)})
 					}
 				}
@@ -105,6 +108,11 @@ func main() {
 							nontrivial = true
 							c.Hist("restore", "multi-output dependency restored over other outputs")
 						}
+					case "link", "od": // the key source changed since the previous build and plz-out was kept
+						if !st.Wipe && st.Spec.Pkgs["p"].Files["a.txt"] != h[k-1].Spec.Pkgs["p"].Files["a.txt"] {
+							nontrivial = true
+							c.Hist("restore", o.Kind+": key source changed with plz-out kept")
+						}
 					case "ntool":
 						if same, _ := e2e.OutputsEqual(st.Clean["//p:gen"], h[k-1].Clean["//p:gen"]); !same {
 							nontrivial = true
@@ -116,7 +124,11 @@ func main() {
 				}
 				oracle(c, 2000+i, h, k, o.Cache)
 			}
-			c.Case(engCase(h), histJSON(2000+i, h, len(h)-1, o.Cache), e2e.EngKey(h)+o.Cache+fmt.Sprint(o.WipeAll), nontrivial)
+			if e2e.C02ShapeModelled(o.Kind) {
+				c.Case(engCase(h), histJSON(2000+i, h, len(h)-1, o.Cache), e2e.EngKey(h)+o.Cache+fmt.Sprint(o.WipeAll), nontrivial)
+			} else {
+				c.Eval(histJSON(2000+i, h, len(h)-1, o.Cache), e2e.EngKey(h)+o.Cache+fmt.Sprint(o.WipeAll), nontrivial)
+			}
 		}
 		memoPart(c, base)
 		for i, h := range all {
